@@ -774,6 +774,32 @@ func runC19(r *Run, p *Prog) {
 				}
 			}
 		}
+		// and Bind itself does not leave the flag set when it fails: a store of `running = true` in Bind is undone
+		// on every path to an error return
+		for _, blk := range bind.Blocks {
+			for _, in := range blk.Instrs {
+				st, ok := in.(*ssa.Store)
+				if !ok || !isStoreToServiceField(in, svcF.Running) {
+					continue
+				}
+				if k, isK := st.Val.(*ssa.Const); !isK || constTerm(k) != "const:true" {
+					continue
+				}
+				reach, w := reachInstr(bind, st, func(i ssa.Instruction) bool {
+					ret, isRet := i.(*ssa.Return)
+					return isRet && len(ret.Results) > 0 && !isNilErrorReturn(i)
+				}, func(i ssa.Instruction) bool {
+					s2, isSt := i.(*ssa.Store)
+					if !isSt || !isStoreToServiceField(i, svcF.Running) {
+						return false
+					}
+					k, isK := s2.Val.(*ssa.Const)
+					return isK && constTerm(k) == "const:false"
+				}, nil)
+				r.Ob("A6", shortName(bind), "a failing Bind does not leave the service marked as serving", st.Pos(), !reach,
+					"Bind marks the service as running and can return an error without taking the mark back: every later Bind is refused", witnessPos(p, w)...)
+			}
+		}
 		r.Stat("A6_bind_edges_examined", nEdges)
 		r.Ob("A6", shortName(bind), "Bind refuses before looking at the address only because serving is in progress", bind.Pos(), !bad,
 			"Bind can return before parsing the address on a test of Service state other than `running`: state left behind by an earlier (possibly failed) Bind can wedge the service so that it never binds again", witnessPos(p, wit)...)
